@@ -40,3 +40,23 @@ func second(xs []int) int {
 	}
 	return 0
 }
+
+// one of the two callers does not guard
+func (w *W) emit(b []byte) {
+	if len(b) == 0 {
+		return
+	}
+	if w.glues(b) {
+		w.out = append(w.out, ' ')
+	}
+}
+
+func (w *W) emitRaw(b []byte) {
+	if w.glues(b) {
+		w.out = append(w.out, ' ')
+	}
+}
+
+func (w *W) glues(b []byte) bool {
+	return b[0] == ' '
+}
